@@ -35,6 +35,7 @@ def run(chk):
     if bins.get("sym_c05"):
         index, changed = troute.regenerate(chk, bins["sym_c05"], "c05")
         troute.tv(chk, bins["sym_c05"], "c05", 400 if chk.thorough else 64)
+        troute.lean_tv(chk, bins["sym_c05"], "c05", index, n=8 if chk.thorough else 3)
 
         def search(name):
             return troute.lean_search(chk, "ImathVerif.Props.C05", name, IMPORTS, ["ImathVerif", "Matrix"], binary=bins["sym_c05"])
